@@ -75,6 +75,15 @@ def gen_defset(rng, n_entities=None, tie_heavy=False):
     rng.shuffle(names)
     for n in names:
         ents[n] = gen_section(rng, aliases, list(ifaces), nested_bias=0.4, must_have_props=True)
+    if rng.random() < 0.5:
+        # two FIXED_DICT layouts with IDENTICAL field names and different field types/sizes, as properties of one entity and of another:
+        # anything keyed on the field names alone mixes them up
+        names3 = rng.sample(gen_types.FIELD_NAMES, 3)
+        small = ('dict', tuple((n, ('u', 1)) for n in names3), False)
+        big = ('dict', ((names3[0], ('u', 4)), (names3[1], ('f64',)), (names3[2], ('array', ('u', 2), None))), False)
+        ks = list(ents)
+        ents[ks[0]]['props'].append(('twinSmall', small, 'ALL_CLIENTS')); ents[ks[0]]['props'].append(('twinBig', ('array', big, None), 'ALL_CLIENTS'))
+        ents[ks[-1]]['props'].append(('twinBig2', big, 'OWN_CLIENT'))
     if tie_heavy:
         # many same-sized members so that only stability decides the order
         for sec in list(ents.values()) + list(ifaces.values()):
@@ -264,7 +273,14 @@ class History:
         self.unknown_types = [t for t in [6, 9, 0x0b, 0x10, 0x20, 0x30, 0xff, 0xffffffff, 1234567] if t not in self.ids.values()]
 
     # ---- helpers
-    def val(self, t): return self.vg.struct(t)
+    def val(self, t):
+        # every so often the SAME value (hence the same bytes) is sent again - to another entity, to another property of that type, to the
+        # same property: state kept per value object or cached by its bytes would show as one update leaking into another place
+        import copy
+        pool = self.__dict__.setdefault('_valpool', {}); key = repr(t)
+        if pool.get(key) and self.rng.random() < 0.3: return copy.deepcopy(self.rng.choice(pool[key]))
+        v = self.vg.struct(t); pool.setdefault(key, []).append(copy.deepcopy(v)); pool[key] = pool[key][-6:]
+        return v
     def emit(self, cls, payload, label, time_bits=None):
         tb = self.rng.choice([0, 0x3f800000, 0x7fc00000, 0x7f800000, 0x00000001, self.rng.randrange(2 ** 32)]) if time_bits is None else time_bits
         tid = self.ids[cls] if isinstance(cls, str) else cls
